@@ -1,5 +1,6 @@
 import Driver.Proto
 import TonicModel.Model.Compression
+import TonicModel.Model.CompressionHttp
 import TonicModel.Spec.Compression
 /-
 C05 driver: parses a case line and the implementation's observed tokens (see harness/src/c05.rs
@@ -337,6 +338,32 @@ def handleCli (shape : String) (ts obs : List String) : String × String :=
                  ("acceptable-response-delivered", Spec.Compression.cliDeliver accept c.shape c.resp o)]
     (showCli model, v)
 
+/-- `clih.<shape> <http status> <rest of a cli case>`: the scripted response carries that HTTP
+status.  Prediction: `Compression.callHttp`.  Verdict: what the client sends / advertises and the
+refusal of a non-enabled `grpc-encoding` are demanded for every HTTP status; the two clauses about
+the message stream only for a 200 (the body of any other response is not a gRPC message stream). -/
+def handleCliHttp (shape : String) (ts obs : List String) : String × String :=
+  match ts with
+  | st :: ts =>
+    match st.toNat?, parseCli shape ts with
+    | some http, some c =>
+      let cfg : Compression.CliCfg := { send := sendOf c.snd, accept := Compression.runCalls c.acc }
+      let model := Compression.callHttp cfg c.shape c.umdEnc c.umdAcc c.k http c.resp
+      let accept := Spec.Compression.enabledAfter c.acc
+      let v := match parseCliObs obs with
+        | none => if obs = ["not-a-header-value"] ∨ obs = ["bad-md"] then "ok" else "fail:unparsable-observation"
+        | some o =>
+          verdict ([("client-sends-exactly-configured-encoding", Spec.Compression.cliSend (sendOf c.snd) o),
+                   ("client-advertises-exactly-accepted", Spec.Compression.cliAdvertise accept o),
+                   ("unsupported-response-encoding-refused", Spec.Compression.cliRefuse accept c.resp o)] ++
+                  (if http = 200 then
+                    [("flag-without-encoding-internal", Spec.Compression.cliFlag accept c.resp o),
+                     ("acceptable-response-delivered", Spec.Compression.cliDeliver accept c.shape c.resp o)]
+                   else []))
+      (showCli model, v)
+    | _, _ => bad
+  | _ => bad
+
 /-! ### pair: a real client against a real server -/
 
 structure PairCase where
@@ -436,14 +463,31 @@ def handleGen (j : String) (ts obs : List String) : String × String :=
     (expected, verdict [("generated-code-hands-the-compression-settings-on", String.intercalate " " obs == expected)])
   | _ => bad
 
-def handle (case obs : List String) : String × String :=
+def handleBase (case obs : List String) : String × String :=
   match case with
   | k :: ts =>
     if k.startsWith "srv." then handleSrv (k.drop 4).toString ts obs
     else if k.startsWith "cli." then handleCli (k.drop 4).toString ts obs
+    else if k.startsWith "clih." then handleCliHttp (k.drop 5).toString ts obs
     else if k.startsWith "pair." then handlePair (k.drop 5).toString ts obs
     else if k.startsWith "gen." then handleGen (k.drop 4).toString ts obs
+    -- `stk.`: the `gen.` experiment inside tonic's own stacks (real `Channel`, `transport::Server`,
+    -- Routes, their middleware per the last token): same expectation, the stacks must be invisible
+    else if k.startsWith "stk." then handleGen (k.drop 4).toString ts.dropLast obs
     else bad
+  | _ => bad
+
+/-- `x.<knobs> <inner case>` (harness/src/c05_x.rs): the inner case run with dimensions turned
+that must be INVISIBLE to the negotiation — message-size limits configured next to the
+compression settings, the codec's buffer settings, how the received body is cut into DATA frames,
+foreign headers (`accept-encoding`, `content-encoding`, content-type / `te` / version variants,
+negotiation names in TRAILERS), `Pending` message streams, `with_origin`, clones of clones,
+histories in which the peer told the client what it accepts / the same server value served other
+calls, interceptor layers around generated code.  The model has no such parameter: prediction and
+verdict are those of the inner case. -/
+def handle (case obs : List String) : String × String :=
+  match case with
+  | k :: ts => if k.startsWith "x." then handleBase ts obs else handleBase case obs
   | _ => bad
 
 end DriverC05
